@@ -518,6 +518,22 @@ func bvCmp(op string, a, b *Term) *Term {
 	if sameTerm(a, b) {
 		return BoolT(op[3:] == "le" || op[3:] == "ge")
 	}
+	if a.S.W >= 128 && op[2] == 'u' {
+		// wide unsigned comparisons (32-byte hashes / tree nodes): an uninterpreted strict total order instead
+		// of a bit-blasted 256-bit comparator. Only consistency of the order matters to the code; instance
+		// axioms give trichotomy. Counterexamples are re-validated natively with the real byte order.
+		lt := func(x, y *Term) *Term { return App(fmt.Sprintf("bvlt%d", x.S.W), BoolSort, x, y) }
+		switch op[3:] {
+		case "lt":
+			return lt(a, b)
+		case "gt":
+			return lt(b, a)
+		case "le":
+			return Not(lt(b, a))
+		default:
+			return Not(lt(a, b))
+		}
+	}
 	if a.Op == "ite" && b.IsConst() && iteOfConsts(a) {
 		return Ite(a.Args[0], bvCmp(op, a.Args[1], b), bvCmp(op, a.Args[2], b))
 	}
